@@ -50,4 +50,42 @@ def check_C02(tier, seed):
                            "raise_error True/False, and three exception lists for check_flows")
 
 
-CHECKS = {"C02": check_C02}
+def sig_sys(vec, probs):
+    import re
+    m = re.search(r"\[(\w+)", probs[0])
+    return {"engine": "system", "op": vec["op"], "route": m.group(1) if m else "",
+            "symptom": "not_refused" if "must be refused" in probs[0] or "accepted" in probs[0] else
+            ("raised" if "raised" in probs[0] else "wrong")}
+
+
+def check_C18(tier, seed):
+    from . import replay_system
+    out = Outcome("C18", tier, seed)
+    models = [Model("MC_System.tla", {"Emit": True, "Part": part}, invariants=["Prop_C18", "EmitInv"], workers=2,
+                    label=f"MC_System/{part}") for part in ("defs", "files")]
+    vectors = []
+    for m, res in core.run_models(models, seed=seed, parallel=2):
+        out.add_tlc(m, res)
+        vectors += res.vectors
+    bad = core.replay_parallel(replay_system.run_vector, vectors)
+    out.replayed += len(vectors)
+    out.samples += [core.sample_of({"op": v["op"], "def": v["def"], "file": v["file"], "res": v["res"]}, 900)
+                    for v in vectors[:: max(1, len(vectors) // 3)][:3]]
+    out.judge(core.for_property(bad, "C18"), "system", sig_sys)
+    kinds = out.extra.setdefault("vectors", {})
+    for v in vectors:
+        k = v["op"] + ("/error" if v["res"]["error"] else "/ok")
+        kinds[k] = kinds.get(k, 0) + 1
+    out.exhaustive = True
+    out.assumptions += [
+        "definitions vary one aspect at a time around a base definition (process lists x flow lists x naming function; process lists x "
+        "one stock from the full pool of class x lifetime model x solver x time letter x process x dims; parameter lists x flows)",
+        "every valid arrow-named definition is built through from_data_reader, from_csv, from_excel (named sheets and first sheet) and "
+        "manual assembly; other naming functions through make_empty_flows",
+        "files are written by the harness with pandas (to_csv / openpyxl) into a temporary directory",
+        "a dimension file whose first cell equals the dimension's name is a headed file by definition",
+    ]
+    return out.finish(rule="one vector per definition / per dimension file variant; Build(def) and ParseDimFile from spec/System.tla")
+
+
+CHECKS = {"C02": check_C02, "C18": check_C18}
